@@ -60,7 +60,7 @@ def _should_eliminate_join(scope: Scope, join: exp.Join, alias: str) -> bool:
         and not _join_is_used(scope, join, alias)
         and (
             (join.side == "LEFT" and _is_joined_on_all_unique_outputs(inner_source, join))
-            or (not join.args.get("on") and _has_single_output_row(inner_source))
+            or (not join.args.get("on") and _has_exactly_one_output_row(inner_source))
         )
     )
 
@@ -119,11 +119,38 @@ def _unique_outputs(scope: Scope) -> set[str]:
 
 
 def _has_single_output_row(scope: Scope) -> bool:
+    """Whether `scope` returns at most one row."""
     return isinstance(scope.expression, exp.Select) and (
-        all(isinstance(e.unalias(), exp.AggFunc) for e in scope.expression.selects)
+        (
+            all(isinstance(e.unalias(), exp.AggFunc) for e in scope.expression.selects)
+            and not scope.expression.args.get("group")
+        )
         or _is_limit_1(scope)
         or not scope.expression.args.get("from_")
     )
+
+
+def _has_exactly_one_output_row(scope: Scope) -> bool:
+    """
+    Whether `scope` always returns one row, so that cross joining it never changes the row count.
+    GROUP BY, HAVING, WHERE without FROM and OFFSET can all leave it with no row at all.
+    """
+    select = scope.expression
+    if not isinstance(select, exp.Select) or any(
+        select.args.get(arg) for arg in ("group", "having", "offset", "qualify")
+    ):
+        return False
+
+    if _is_limit_1(scope):
+        return True
+
+    if select.args.get("limit"):
+        return False
+
+    if not select.args.get("from_"):
+        return not select.args.get("where")
+
+    return all(isinstance(e.unalias(), exp.AggFunc) for e in select.selects)
 
 
 def _is_limit_1(scope: Scope) -> bool:
